@@ -71,6 +71,30 @@ pub fn run(ctx: &Ctx) {
                     if *got != (rr, rs, ro) { ctx.violation(format!("{P}:sign:{shape}:step-{}-depends-on-history", step + 1), format!("operation {} of the sequence returns {} instead of the signature of its own key and digest {}", step + 1, refmodel::eth::sig_text(&got.0, &got.1, got.2), refmodel::eth::sig_text(&rr, &rs, ro)), replay); break; } } }
         }
     });
+    // a relation between the RESULTS of two steps: two signatures (one key, two digests) whose r values share their leading
+    // 2, 3 or 4 bytes, signed one after the other on one thread in both orders. Such pairs are found by a birthday search over
+    // the implementation's own signatures of 2^18 digests (sixteen threads of their own; each digest of a pair found is then
+    // re-signed by the reference). Anything that fingerprints, indexes or compares earlier results by a prefix meets them.
+    let n_search: u64 = if ctx.quick() { 1 << 18 } else { 1 << 20 }; let skey = ks[4].1;
+    let digest_of = |k: u64| -> [u8; 32] { refmodel::hash::keccak256(&k.to_be_bytes()) };
+    let mut fp: Vec<(u32, u64)> = std::thread::scope(|sc| { let hs: Vec<_> = (0..16u64).map(|t| sc.spawn(move || { let key = PrivateKey::new(skey.to_be()).expect("valid key"); let per = n_search / 16;
+        (t * per..(t + 1) * per).map(|k| { let s = key.sign(Digest(refmodel::hash::keccak256(&k.to_be_bytes()))); let r = s.r().to_be_bytes(); (u32::from_be_bytes([r[0], r[1], r[2], r[3]]), k) }).collect::<Vec<_>>() })).collect(); hs.into_iter().flat_map(|h| h.join().unwrap_or_default()).collect() });
+    fp.sort();
+    let mut pairs: Vec<(usize, u64, u64)> = Vec::new(); let mut count = [0usize; 5];
+    for w in fp.windows(2) { let same = (w[0].0 ^ w[1].0).leading_zeros() / 8; for bytes in [4usize, 3, 2] { if same as usize >= bytes && count[bytes] < 24 { count[bytes] += 1; pairs.push((bytes, w[0].1, w[1].1)); break; } } }
+    ctx.set_extra("signature_pairs_sharing_leading_r_bytes_found", json!({"2": count[2], "3": count[3], "4": count[4], "searched": n_search}));
+    ctx.sweep("signatures-sharing-a-prefix-of-r", &format!("pairs of digests whose signatures under one key share the leading 4 / 3 / 2 bytes of r (up to 24 pairs each, found by a birthday search over {n_search} signatures), signed D1, D2, D1 and D2, D1, D2 on one fresh thread: every signature is the RFC 6979 signature of its own digest"), (pairs.len() * 2) as u64, |i| {
+        let (bytes, a, b) = pairs[i as usize / 2]; let (a, b) = if i % 2 == 0 { (a, b) } else { (b, a) }; let seq = [digest_of(a), digest_of(b), digest_of(a)];
+        let got = std::thread::spawn(move || guard(|| { let key = PrivateKey::new(skey.to_be()).expect("valid key"); seq.iter().map(|d| { let s = key.sign(Digest(*d)); (U256::from_be(&s.r().to_be_bytes()), U256::from_be(&s.s().to_be_bytes()), s.y_parity().as_u8() == 1) }).collect::<Vec<_>>() })).join().unwrap_or_else(|_| Err("thread died".into()));
+        let replay = json!({"sweep": "signatures-sharing-a-prefix-of-r", "index": i, "entry": "PrivateKey::sign x 3 on a fresh thread", "secret": skey.to_hex64(), "digests": seq.iter().map(|d| explore::hex(d)).collect::<Vec<_>>(), "shared_leading_bytes_of_r": bytes});
+        ctx.sample("signatures-sharing-a-prefix-of-r", || replay.clone());
+        match got {
+            Err(p) => { ctx.eval(format!("shared-r-prefix={bytes}:panic")); ctx.panic_violation(format!("{P}:sign:shared-r-prefix:panic@{}", panic_site(&p)), format!("panics: {p}"), replay) }
+            Ok(sigs) => { ctx.eval(format!("shared-r-prefix={bytes}:signed"));
+                for (step, (d, got)) in seq.iter().zip(sigs.iter()).enumerate() { let (rr, rs, ro, _) = curve.sign_rfc6979(&skey, d);
+                    if *got != (rr, rs, ro) { ctx.violation(format!("{P}:sign:shared-r-prefix={bytes}:step-{}-depends-on-history", step + 1), format!("signature {} of the sequence is {} instead of the RFC 6979 signature {} of its digest (the r values of the two digests share their leading {bytes} bytes)", step + 1, refmodel::eth::sig_text(&got.0, &got.1, got.2), refmodel::eth::sig_text(&rr, &rs, ro)), replay.clone()); return; } } }
+        }
+    });
     ctx.set_extra("digests_ge_n_where_signature_differs_from_rfc6979_of_reduced_digest(recorded,not required)", json!(ge_n_differs.load(Ordering::Relaxed)));
     ctx.guard_check("both parities observed", par0.load(Ordering::Relaxed) > 0 && par1.load(Ordering::Relaxed) > 0, format!("parity 0: {}, parity 1: {}", par0.load(Ordering::Relaxed), par1.load(Ordering::Relaxed)));
     ctx.guard_check("low-s flip exercised", flips.load(Ordering::Relaxed) > 0, format!("{} cases had a raw s above n/2", flips.load(Ordering::Relaxed)));
